@@ -188,6 +188,25 @@ func (wd *world) checkFallback() {
 		}
 		if !ok {
 			e.Violate("fallback_without_failure", "%s was created (seq %d) although no higher-priority server had failed before delivering a response", tr.name(), tr.buildSeq)
+			continue
+		}
+		// The switch must be caused by a failure of the server in use, i.e.
+		// of the next-higher-priority server (servers are taken in order), and
+		// it happens while that failure is being handled (before the failed
+		// transport tries its next stream).
+		ok = false
+		for _, o := range wd.transports {
+			if o.srv.idx != tr.srv.idx-1 {
+				continue
+			}
+			for _, f := range o.newFails {
+				if f.seq < tr.buildSeq && (f.next == 0 || tr.buildSeq < f.next) {
+					ok = true
+				}
+			}
+		}
+		if !ok {
+			e.Violate("fallback_trigger", "%s was created (seq %d) although the server in use (s%d) had not just failed before delivering a response", tr.name(), tr.buildSeq, tr.srv.idx-1)
 		}
 	}
 }
